@@ -338,6 +338,11 @@ func c08RunIdx(c *core.Ctx, k c08IdxCase) {
 		call = fmt.Sprintf("%s(x,%d)", k.Method, k.I)
 	}
 	desc := map[string]any{"len": L, "neg": k.Neg, "fwd": k.Fwd, "cap": k.Cap, "call": call}
+	if c.Idx%3 == 0 {
+		// with the mutex enabled a refused call must also have released the lock again ("stays usable")
+		s.SetMutex()
+		desc["mutex"] = true
+	}
 	before, _ := Take(s)
 	content0 := append([]any{}, m.Items...)
 	x := "NEW"
@@ -390,6 +395,10 @@ func c08RunIdx(c *core.Ctx, k c08IdxCase) {
 	after, _ := Take(s)
 	if !after.S.Slot0Cfg {
 		c.Violatef("corrupt:"+k.Method+":"+cls+":cfg-slot-lost", desc, "%s destroyed the configuration slot", desc["call"])
+		return
+	}
+	if after.S.Ldr {
+		c.Violatef("lock-left-held:"+k.Method+":"+cls, desc, "%s returned with the stack's lock still held (the next locking call would never return)", desc["call"])
 		return
 	}
 	unchanged := Diff(before, after, DiffOpts{}) == ""
@@ -645,6 +654,9 @@ func c08RunElem(c *core.Ctx, n int) {
 		case "inserted+replaced":
 			s = stackage.List().Push("a", "b", "c")
 			s.Insert(aw.New(), 1)
+			s.Replace(aw.New(), 0)
+			// ... and over a slot that already holds a value of that very type
+			s.Replace(aw.New(), 1)
 			s.Replace(aw.New(), 0)
 		case "condition-expression":
 			var cd stackage.Condition
